@@ -4,6 +4,16 @@ import json, os, sys
 HERE = os.path.dirname(os.path.dirname(os.path.abspath(__file__)))
 
 CHECKS = {
+ "C03": dict(level="other", design="4.3",
+   technique="path-sensitive typestate (canonical last block) over every instantiated member for 4 block types, exact constant folding of the bit/block helper formulas over all bit offsets, linear bit-displacement/coverage analysis of the shift loops, guard entailment for at()/empty-buffer accesses, size/block-count agreement, promotion-decided comparison lint",
+   text="Decides structural necessary conditions on every instantiated member of xdynamic_bitset_base/xdynamic_bitset/xdynamic_bitset_view for uint8/16/32/64 blocks: "
+        "every normal exit leaves bits >= size() cleared (stores classified preserving/dirtying, zero_unused_bits() is the cleaning event, constructors start from the state "
+        "their storage expression establishes); block_index/bit_index/bit_mask/compute_block_count/integer_ceil/count_extra_bits, the unused-bit masks and the bit-reference "
+        "mask/primitives equal their defining formulas for every bit offset (folded with clang's recorded promotions/conversions, shift-width UB reported); each block move of "
+        "<<= / >>= displaces bits by exactly pos, stays inside [0,last], and moved ranges + zero fill tile the buffer; at() throws out_of_range exactly for i >= size(); "
+        "front/back/[0]/[count-1] need a dominating non-emptiness fact; the buffer is sized ceil(size/W) wherever size is set; resize(n,true) patches the old last block; "
+        "no block comparison is decided by integer promotion. Bit values produced by operation histories are NOT decided.",
+   note="Assumes callers respect pos < size() for unchecked single-bit operations and equal sizes for blockwise operators; a restructured shift algorithm is reported as analysis-broken (exit 2), not as a violation; trusts sa/flow.py, sa/ceval.py, sa/linear.py."),
  "C17": dict(level="other", design="4.15",
    technique="pattern-level discipline rules on canonicalised bodies (parameters/locals renamed) of every dispatcher and visitor function; linear entailment for the grow-only resize",
    text="Decides structural clauses: lookup results are compared with end()/size before use and the error is raised; empty type lists call on_error; "
